@@ -4,7 +4,7 @@ properties (default: those recorded in meta.json), undo the patch, record the re
 Evidence files are redirected (VERIF_EVIDENCE_DIR) so that committed evidence only ever comes from the unchanged tree."""
 import json, os, subprocess, sys, time
 sid = sys.argv[1]
-d = f"/verif/seeded/{sid}"
+d = f"/verif/{os.environ.get('SEED_DIR', 'seeded')}/{sid}"  # SEED_DIR=harmless for the behaviour-preserving refactorings
 meta = json.load(open(f"{d}/meta.json"))
 checks = sys.argv[2:] or sorted(meta.get("check_results", {})) or [meta["property"]]
 def run(cmd, **kw):
@@ -24,6 +24,6 @@ try:
 finally:
     subprocess.run(["git", "-C", "/repo", "checkout", "-q", "--", "."])
 meta["check_results"] = results
-meta["ran"] = [f"git -C /repo apply /verif/seeded/{sid}/patch.diff; ./check {c}; git -C /repo checkout -- ." for c in sorted(results)]
+meta["ran"] = [f"git -C /repo apply {d}/patch.diff; ./check {c}; git -C /repo checkout -- ." for c in sorted(results)]
 meta["caught_by"] = sorted(c for c, v in results.items() if v["exit"] == 1 and any("VIOLATION" in l for l in v["lines"]))
 json.dump(meta, open(f"{d}/meta.json", "w"), indent=1)
